@@ -52,9 +52,9 @@ func main() {
 		fmt.Println("replay: no finding on the current tree")
 	case "racepass":
 		// free-running execution of the C07 scenario bodies; meaningful in the binary built with -race
-		rounds := 30
+		rounds := 10
 		if len(os.Args) > 2 && os.Args[2] == "thorough" {
-			rounds = 300
+			rounds = 200
 		}
 		n := checks.RacePass(rounds)
 		fmt.Printf("racepass: %d free-running executions\n", n)
